@@ -6,6 +6,7 @@ import (
 	"fmt"
 	"os"
 	"sort"
+	"strings"
 	"testing"
 	"testing/synctest"
 	"time"
@@ -243,7 +244,9 @@ func macros(b []foStepJ) []macro {
 	return res
 }
 
-// drain releases whatever is parked (builders succeed, no faults) until nothing moves any more.
+// drain releases whatever is parked (builders succeed, no faults) until nothing moves any more.  It is adversarial:
+// goroutines waiting to ENTER a builder or to reach one are released before goroutines about to LEAVE a builder, so that
+// a code base that lets two builds of one key run at once shows the overlap.
 func (r *foRun) drain() {
 	for i := 0; i < 1000; i++ {
 		ps := r.s.anyParked()
@@ -252,7 +255,22 @@ func (r *foRun) drain() {
 		}
 
 		sort.Strings(ps)
-		r.s.release(ps[0], gcmd{ok: true})
+
+		pick := ""
+
+		for _, p := range ps {
+			if a := r.s.parkedAt(p); a != nil && a.kind != "bend" {
+				pick = p
+
+				break
+			}
+		}
+
+		if pick == "" {
+			pick = ps[0]
+		}
+
+		r.s.release(pick, gcmd{ok: true})
 		synctest.Wait()
 	}
 }
@@ -315,6 +333,10 @@ func (r *foRun) exec(b []foStepJ) {
 			case "ExtExpireAll":
 				r.fo.Backend().ExpireAll(context.Background())
 				r.s.rec(Event{Ev: "extexpire"})
+			case "ExtWrite":
+				k := f.Out[:strings.Index(f.Out, "#")]
+				_ = r.fo.Backend().Write(context.Background(), r.km.ByModel[k], f.Out)
+				r.s.rec(Event{Ev: "extwrite", K: k, V: f.Out})
 			case "ExtDelete":
 				_ = r.fo.Backend().Delete(context.Background(), r.km.ByModel[f.Out])
 				r.s.rec(Event{Ev: "extdelete", K: f.Out})
